@@ -78,7 +78,7 @@ def rule_a(ctx, f):
             ok = (isinstance(v, ast.Call) and norm(v.func) == "np.ravel" and len(v.args) == 2 and norm(v.args[1]) == "'F'"
                   and isinstance(v.args[0], ast.Subscript) and norm(v.args[0].value) == "self.cell_index" and shifted(v.args[0], d, kind))
             ctx.ob(R, f.qname, f"axis {d}: connectivity column {col} is the {'lower' if kind == 'low' else 'higher'} neighbour along axis {d} (Fortran order)", ok, norm(v), st)
-            ctx.ob(R, f.qname, f"axis {d}: connectivity block guarded by self.dim >= {d + 1}", dim_guard(st, f.node) == f"self.dim >= {d + 1}", str(dim_guard(st, f.node)), st)
+            ctx.ob(R, f.qname, f"axis {d}: connectivity block guarded by self.dim >= {d + 1}", dim_guard(st, f.node) in (f"{d + 1} <= self.dim", f"{d} < self.dim"), str(dim_guard(st, f.node)), st)
         for s, kind in (("0", "high"), ("1", "low")):
             st = rev.get((str(d), s))
             if st is None:
@@ -89,7 +89,7 @@ def rule_a(ctx, f):
                   and isinstance(cells.args[0], ast.Subscript) and norm(cells.args[0].value) == "self.cell_index" and shifted(cells.args[0], d, kind)
                   and norm(st.value) == f"self.faces[{d}]")
             ctx.ob(R, f.qname, f"axis {d}: reverse_connectivity[{d}, cells, {s}] inverts connectivity column {1 - int(s)}", ok, norm(st)[:140], st)
-            ctx.ob(R, f.qname, f"axis {d}: reverse block guarded by self.dim >= {d + 1}", dim_guard(st, f.node) == f"self.dim >= {d + 1}", str(dim_guard(st, f.node)), st)
+            ctx.ob(R, f.qname, f"axis {d}: reverse block guarded by self.dim >= {d + 1}", dim_guard(st, f.node) in (f"{d + 1} <= self.dim", f"{d} < self.dim"), str(dim_guard(st, f.node)), st)
     ctx.floor(R, 3)
     attrs = {norm(s.targets[0]): norm(s.value) for s in ast.walk(f.node) if isinstance(s, ast.Assign) and norm(s.targets[0]).startswith("self.")}
     ctx.ob(R, f.qname, "cells are numbered in Fortran order", attrs.get("self.cell_index") == "np.arange(self.num_cells, dtype=int).reshape(self.shape, order='F')", attrs.get("self.cell_index", ""), f.node)
